@@ -72,7 +72,12 @@ class Highlighter(object):
     def highlighted_lines(self, source):
         source = source.replace("\r\n", "\n").replace("\r", "\n")
 
-        return self.split_to_lines(source)
+        try:
+            return self.split_to_lines(source)
+        except (tokenize.TokenError, SyntaxError):
+            # The source cannot be tokenized (it changed on disk after it was
+            # loaded, or it is not Python code): show it without highlighting
+            return source.split("\n")
 
     def split_to_lines(self, source):
         lines = []
